@@ -418,3 +418,10 @@ mod tests {
         );
     }
 }
+
+/// Verification hook (off by default): the words of this language's linking-word table, so that an external monitor can
+/// check that the table and its lookup agree.
+#[cfg(feature = "verif-hooks")]
+pub fn verif_linking_vocabulary() -> Vec<&'static str> {
+    INSIGNIFICANT.iter().copied().collect()
+}
